@@ -3,7 +3,8 @@
 B (deciding tier, bounded): parse_operations vs an independent reference parser over a token grammar;
    parse_path(format_path(segs)) == segs; the same operation lists through the real server at several
    depths / bundle limits / fragment settings (with refused operations and differing route paths).
-P: fragment of connector.issue - the bundle join/flush decision never mixes route or send paths, index/sender-context accounting.
+P: fragment of connector.issue - the bundle join/flush decision never mixes route or send paths, index/sender-context accounting;
+   fragment of connector.pipeline - one result per issued request, in order, for every depth (loop invariant + variant).
 """
 from .util import distinct_keys
 import itertools
@@ -25,12 +26,16 @@ LEVEL_TEXT = ('Bounded stand-in (labelled bounded): the client (parse_operations
 LEVEL_NOTE = ('Deciding tier is bounded. One deductive fragment IS discharged for all states (pyvc, z3): the `if multiple:` statement of the operations loop of '
               'connector.issue - an operation joins a non-empty bundle only if its route and send path equal the bundle\'s, otherwise the bundle is flushed exactly '
               'once with all collected requests in order under one index and sender context, the index advances by one, and the new bundle carries this '
-              'operation\'s paths. parse_operations, collect / harvest / pipeline and the socket I/O are bounded-only; schedules are not enumerated. '
+              'operation\'s paths. A second fragment, the flow-control loop and completeness assertion of connector.pipeline, is proved for every depth >= 0 and every number '
+              'of requests: every issued request is harvested exactly once, in issue order, nothing is left in flight, the loop terminates (variant); the issuer and '
+              'harvester generators are assumed (in-flight requests are answered oldest first, or the session ceases and the assertion fires). '
+              'connector.harvest is proved as a whole (request k is paired with reply k, a reply with another sender context or service raises instead of '
+              'being attributed), over an assumed finite reply sequence. parse_operations, collect and the socket I/O are bounded-only; schedules are not enumerated. '
               'get_attribute.attribute_operations / proxy.read_details are exercised only through the shared pipeline.')
 TECHNIQUE = ('bounded: reference parser for operation strings, format/parse path round trip, depth/bundle independence against the real simulator over TCP; '
-             'deductive fragment contract (pyvc, z3) on the bundle join/flush decision of connector.issue')
+             'deductive fragment contracts (pyvc, z3) on the bundle join/flush decision of connector.issue and on the flow-control loop of connector.pipeline, whole-function contract on connector.harvest')
 TRUSTED = ['the independent reference parser of the operation syntax in this file', 'T9 fragment contract: the rest of connector.issue is unverified',
-           'connector.multiple is an assumed callee (ghost call record)']
+           'connector.multiple is an assumed callee (ghost call record)', 'the issue() and harvest() generators driven by pipeline are assumed (FIFO replies or cease)']
 ASSUMPTIONS = ['one client connection at a time']
 
 SIZES = {'STRING': (0xd0, 0), 'SSTRING': (0xda, 0), 'SINT': (0xc2, 1), 'USINT': (0xc6, 1), 'INT': (0xc3, 2), 'UINT': (0xc7, 2), 'DINT': (0xc4, 4), 'UDINT': (0xc8, 4), 'LINT': (0xc5, 8), 'ULINT': (0xc9, 8),
@@ -532,5 +537,162 @@ def issue_bundle_spec(repo):
                      'connector.multiple is an assumed callee (ghost call record); route/send paths are compared as opaque identities.')
 
 
+# ------------------------------------------------------------------------------------------------ connector.pipeline: one result per issued request, in order, whatever the depth
+IDX = z3.Function('iss_index', z3.IntSort(), z3.IntSort())        # the index carried by the j-th issued request (bundled requests share one)
+PN = z3.Int('_g_N')                                                # how many requests the issuer generator will produce
+
+
+def frag_pipeline_loop(eng, fdef):
+    """connector.pipeline from its `while issuer or inflight:` loop to the end (the loop, the log line, the completeness assertion)"""
+    body = fdef.body
+    for i, st in enumerate(body):
+        if isinstance(st, _ast.While) and _ast.unparse(st.test) == 'issuer or inflight':
+            return list(body[i:])
+    raise Unsupported('stale contract: connector.pipeline has no `while issuer or inflight:` loop')
+
+
+def _g(st, name):
+    return to_int(st.ghost[name])
+
+
+def pl_truthy(eng, a, st):
+    from pyvc.vals import OpaqueV
+    if isinstance(a, OpaqueV) and a.what == 'issuer':
+        return z3.BoolVal(True)                 # a generator object is true
+    if isinstance(a, OpaqueV) and a.what == 'inflight':
+        return _g(st, 'q_lo') < _g(st, 'q_hi')  # a deque is true when it holds something
+    return None
+
+
+def pl_next(eng, a, args, st, n):
+    """ASSUMED contracts of the two generators the loop drives:
+    issuer    = self.issue(...):  yields _g_N items, item j carrying index iss_index(j); then StopIteration
+    harvester = self.harvest(issued=iter(inflight)): pops the OLDEST in-flight item and yields its result record (same index, same request), or
+                ends (StopIteration) - when nothing is in flight, or when the session stops delivering replies (ghost `ceased`)"""
+    from pyvc.vals import OpaqueV, TupV, ExcV
+    line = getattr(n, 'lineno', None)
+    if isinstance(a, OpaqueV) and a.what == 'issuer':
+        def gen():
+            pos = _g(st, 'iss_pos')
+            for s, more in eng.fork(st, pos < PN):
+                if more:
+                    s = s.clone()
+                    s.ghost = dict(s.ghost)
+                    s.ghost['iss_pos'] = IntV(pos + 1)
+                    yield s, TupV([IntV(IDX(pos)), IntV(pos)])
+                else:
+                    yield s, ExcV('StopIteration', '', line)
+        return gen()
+    if isinstance(a, OpaqueV) and a.what == 'harvester':
+        def gen():
+            lo, hi = _g(st, 'q_lo'), _g(st, 'q_hi')
+            alive = fresh('replied', 'Bool')
+            for s, ok in eng.fork(st, z3.And(lo < hi, alive)):
+                s = s.clone()
+                s.ghost = dict(s.ghost)
+                if ok:
+                    s.ghost['q_lo'] = IntV(lo + 1)
+                    yield s, TupV([IntV(IDX(lo)), IntV(lo)])
+                else:
+                    s.ghost['ceased'] = BoolV(z3.Or(truthy_ghost(s, 'ceased'), lo < hi))
+                    yield s, ExcV('StopIteration', '', line)
+        return gen()
+    return None
+
+
+def truthy_ghost(st, name):
+    v = st.ghost[name]
+    return v.t
+
+
+def pl_methods(eng, recv, name, args, kw, st, n):
+    from pyvc.vals import OpaqueV, TupV
+    if isinstance(recv, OpaqueV) and recv.what == 'inflight' and name == 'append' and len(args) == 1:
+        def gen():
+            hi = _g(st, 'q_hi')
+            it = args[0]
+            if not (isinstance(it, TupV) and len(it.items) == 2):
+                raise Unsupported('inflight.append(%r)' % (it,))
+            eng.add_oblig('pre[the item put in flight is the one just issued @ line %s]' % getattr(n, 'lineno', '?'), 'pre', st, to_int(it.items[1]) == hi,
+                          line=getattr(n, 'lineno', None))
+            s = st.clone()
+            s.ghost = dict(s.ghost)
+            s.ghost['q_hi'] = IntV(hi + 1)
+            yield s, NONE
+        return gen()
+    return None
+
+
+def pipeline_spec(repo):
+    from pyvc.vals import OpaqueV, USort
+    op = lambda what: (lambda eng, name, st: (OpaqueV(z3.Const('_g_' + what, USort), what), st))
+    loc = {'issuer': ('Union', ['None', op('issuer')]), 'inflight': op('inflight'), 'harvester': op('harvester'), 'requests': 'Int', 'complete': 'Int',
+           'curr': 'Int', 'last': 'Int', 'depth': 'Int', 'index': 'Int', '_g_N': 'Int'}
+    CUR = '(idx(requests - 1) if requests > 0 else index - 1)'
+    LAST = '(idx(complete - 1) if complete > 0 else index - 1)'
+    INV = [('accounting', '0 <= complete and complete == q_lo and q_lo <= q_hi and q_hi == requests and requests == iss_pos and iss_pos <= _g_N'),
+           ('an exhausted issuer has issued everything', 'implies(issuer is None, iss_pos == _g_N)'),
+           ('curr / last are the indices of the newest issued / newest harvested request', 'curr == %s and last == %s' % (CUR, LAST)),
+           ('results so far: one per request, in issue order', 'NOUT == complete and forall(0, complete, lambda j: OUT(j)[0] == idx(j) and OUT(j)[1] == j)'),
+           ('replies kept coming', 'not ceased')]
+    return Spec('connector.pipeline[one result per request, in order, at any depth]', (CF, 'connector.pipeline'), params={}, fragment=frag_pipeline_loop, yields=2,
+                hints=dict(locals=loc, truthy=pl_truthy, next=pl_next, value_method=pl_methods,
+                           funcs=dict(idx=lambda pe, j: IntV(IDX(to_int(j))))),
+                ghost=dict(iss_pos=('Int', '0'), q_lo=('Int', '0'), q_hi=('Int', '0'), ceased=('Bool', 'False')),
+                requires='_g_N >= 0 and depth >= 0 and issuer is not None and requests == 0 and complete == 0 and curr == index - 1 and last == index - 1',
+                loops={0: Loop(invariant=INV, variant='2 * _g_N - requests - complete + (0 if issuer is None else 1)')},
+                ensures=[('every issued request is harvested exactly once, in issue order, whatever the depth',
+                          'NOUT == _g_N and forall(0, _g_N, lambda j: OUT(j)[0] == idx(j) and OUT(j)[1] == j)'),
+                         ('nothing is left in flight', 'q_lo == q_hi and iss_pos == _g_N and _f_complete == _f_requests')],
+                raises={'AssertionError': 'ceased'}, modifies=[],
+                note='FRAGMENT (T9) of connector.pipeline: its flow-control loop and completeness assertion, for every depth >= 0 and every number of requests. '
+                     'The issuer and harvester generators are ASSUMED (see pl_next): in-flight requests are answered oldest first or the session ceases. '
+                     'Termination by a variant. The in-flight deque is a ghost window [q_lo, q_hi) into the issued sequence.')
+
+# ------------------------------------------------------------------------------------------------ connector.harvest: the k-th reply belongs to the k-th issued request
+H_N, H_M = z3.Int('_g_nissued'), z3.Int('_g_ncollected')
+H = dict((nm, z3.Function('h_' + nm, z3.IntSort(), z3.IntSort())) for nm in ('idx', 'ctx', 'dsc', 'op', 'req', 'cctx', 'rpy', 'sts', 'val'))
+SVC = z3.Function('service_of', z3.IntSort(), z3.IntSort())
+
+
+def harvest_issued(eng, name, st):
+    from pyvc.vals import ListV, TupV
+    st = st.clone()
+    st.pc += [H_N >= 0, H_M >= 0]
+    eng.init_vals['_g_nissued'], eng.init_vals['_g_ncollected'] = IntV(H_N), IntV(H_M)
+    ix = lambda i: i if z3.is_expr(i) else z3.IntVal(i)
+    return ListV(H_N, lambda i: TupV([IntV(H[k](ix(i))) for k in ('idx', 'ctx', 'dsc', 'op', 'req')]), tag='issued'), st
+
+
+def harvest_collect(eng, recv, args, kw, st, n):
+    """ASSUMED view of self.collect(): some finite sequence of (context, reply, status, value) records (ids)"""
+    from pyvc.vals import ListV, TupV
+    ix = lambda i: i if z3.is_expr(i) else z3.IntVal(i)
+    yield st, ListV(H_M, lambda i: TupV([IntV(H[k](ix(i))) for k in ('cctx', 'rpy', 'sts', 'val')]), tag='collected')
+
+
+def harvest_spec(repo):
+    hf = dict((k, (lambda f: (lambda pe, j: IntV(f(to_int(j)))))(f)) for k, f in H.items())
+    hf['svc'] = lambda pe, x: IntV(SVC(to_int(x)))
+    MATCH = 'cctx(j) == ctx(j) and svc(rpy(j)) == bor80(svc(req(j)))'
+    hf['bor80'] = lambda pe, x: __import__('pyvc.pure', fromlist=['arith']).arith(_ast.BitOr(), x, IntV(0x80))
+    K = 'min(_g_nissued, _g_ncollected)'
+    return Spec('connector.harvest[k-th reply with k-th request]', (CF, 'connector.harvest'), params={'issued': harvest_issued, 'timeout': 'OptInt'}, yields=6,
+                env={'rpy.service': lambda eng, st: IntV(SVC(to_int(st.loc['rpy']))), 'req.service': lambda eng, st: IntV(SVC(to_int(st.loc['req'])))},
+                requires='forall(0, _g_nissued, lambda j: 0 <= svc(req(j)) <= 255)',
+                callees={'connector.collect': harvest_collect, 'collect': harvest_collect},
+                hints=dict(funcs=hf),
+                loops={0: Loop(index='K', invariant=[('paired so far', 'NOUT == K and forall(0, K, lambda j: %s and OUT(j)[0] == idx(j) and OUT(j)[1] == dsc(j) and '
+                                                                       'OUT(j)[2] == req(j) and OUT(j)[3] == rpy(j) and OUT(j)[4] == sts(j) and OUT(j)[5] == val(j))' % MATCH)])},
+                ensures=[('one record per issued request that has a reply, in order: request k with reply k',
+                          'NOUT == %s and forall(0, %s, lambda j: %s and OUT(j)[0] == idx(j) and OUT(j)[2] == req(j) and OUT(j)[3] == rpy(j) and OUT(j)[4] == sts(j) and OUT(j)[5] == val(j))'
+                          % (K, K, MATCH))],
+                raises={'AssertionError': 'exists(0, %s, lambda j: not (%s))' % (K, MATCH)},
+                modifies=[],
+                note='whole generator; self.collect() is an assumed finite sequence of reply records; request/reply objects are ids with an uninterpreted '
+                     'service_of; a reply whose sender context or service does not match its request raises AssertionError instead of being attributed to it. '
+                     'zip is modelled on finite lists (its laziness - replies are only collected as needed - is exercised in the bounded tier)')
+
+
 def contracts(repo):
-    return [issue_bundle_spec(repo)]
+    return [issue_bundle_spec(repo), pipeline_spec(repo), harvest_spec(repo)]
